@@ -234,6 +234,46 @@ CLAIMS = {
          'the real MessageInterface.receive_message over a fake socket with end-of-stream injected at every byte position.',
          'Lean 4 proof (scanner models of the regexes, induction over messages and byte streams) + differential correspondence incl. EOF injection'),
 }
+# session 4: the THREAD code itself is translated (desugar_threads.py -> translate_py.py -> Generated/PyCoreThreads.lean) and theorems are
+# proved about the translated thread programs; appended to the claims of the properties they serve
+THREADS_COMMON = (' ALSO the thread code as TRANSLATED on this run: harness/desugar_threads.py re-writes the AST of PlayerThread / Server / Client / '
+                  'MessageInterface.send_message+receive_message into sequential code over ONE explicit world object (every operation on a queue, socket, '
+                  'barrier, event, thread, the log writer becomes a call on it; externals declared by name; fails rather than guesses), translate_py.py turns '
+                  'that into the MiniPy program Generated/PyCoreThreads.lean, and on every run both the desugared Python and the translated program are '
+                  'executed on what the world handed the REAL threads of the scheduled sessions and must perform the real threads\' operations (texts included). ')
+ADDENDA = {
+ 'C19': THREADS_COMMON + 'Translated/ThreadsFraming.lean: for EVERY character stream the translated receive_message loop returns the text before the first CR LF and '
+        'leaves the rest (framing_recv_translated), raises on a CR not followed by LF, raises ConnectionError at end of stream, blocks (never spins) '
+        'on an open empty stream; any list of CR-free messages is received intact and in order (framing_stream_translated); on ASCII text the outcomes '
+        'are those of the byte-level model (framing_recv_model). Assumed: UTF-8 encode/decode are inverse (the translated socket carries characters).',
+ 'C09': THREADS_COMMON + 'Translated/ThreadsSeatA.lean, ThreadsSeatB.lean (and ThreadsSeatC.lean when present): the translated seat thread — _check_message, _deal, '
+        '_bidding_phase (while-loop, every queue length), _playing_phase (13 x 4 loop), _connect — performs exactly the operations of the reactive model '
+        '(seatDealR, seatBiddingR, seatPlayingR) which C09.seat_thread_follows_its_queue identifies with the session program; hypotheses: the '
+        'client\'s "ready" messages pass the server\'s own check (stated with the same regular-expression engine the translated code calls).',
+ 'C08': THREADS_COMMON + 'Translated/ThreadsMainA.lean, ThreadsMainB.lean (and ThreadsMainC.lean when present): the translated Server.deal, bidding_phase '
+        '(own BiddingPhase through the Translated/Auction theorems; an illegal call raises after the two notices) and playing_phase (own '
+        'PlayingPhaseWithHands through the Translated/Play theorems; the time.sleep of every trick recorded) perform exactly the operations of the '
+        'reactive model (mainDealR, mainBiddingR, mainPlayingR) which C08.main_thread_follows_the_messages identifies with the session program and '
+        'the logged record; hypotheses: what the translated parse_bid / parse_card return on the texts received is what the model\'s parsers return.',
+ 'C11': THREADS_COMMON + 'Translated/ThreadsClientA.lean (and ThreadsClientB.lean when present): the translated bundled Client — _connect, _deal, bidding_phase with its own '
+        'BiddingPhase replica — performs exactly the operations of the reactive client model (clientDealR, clientBiddingR), returns the contract the '
+        'replica holds, raises when the replica refuses a relayed call; create_bid_message proved for all 38 calls x 4 seats by kernel evaluation.',
+ 'C20': THREADS_COMMON + 'Translated/ThreadsSeatB.lean: the translated PlayerThread._connect on EVERY seat table and request — the three tests in the code\'s order are '
+        'admitReq, the reply text is replyText, a refused request leaves the table unchanged and is answered, closed and signalled, a seated one writes '
+        'its seat, answers, awaits "ready for teams", signals, passes the barrier and sends the Teams message built from the table after the barrier '
+        '(seat_connect_translated, seat_connect_not_ready_translated, seat_connect_matches_connectR). In the admission sessions of this check every '
+        'connection thread (seated or refused) and the accept loop are compared with the translated program.',
+ 'C10': ' The seat thread that sends these streams is also covered as TRANSLATED code (see C09: Generated/PyCoreThreads.lean, Translated/ThreadsSeat*.lean). '
+        'Refused actions (an illegal call, a card not held, a card already played) are exercised too: nobody may be told about an action that was not accepted.',
+ 'C13': ' The operator\'s interrupt is also delivered as a REAL signal (harness/sigint_smoke.py: Server.run in the main thread of a child process over loopback '
+        'TCP, SIGINT while a later board is under way). The translated main thread (Generated/PyCoreThreads.lean) covers the normal path only: MiniPy '
+        'drops the state at an exception, so the abort path stays with the hand-written abort model and the fault enumeration.',
+}
+for k, extra in ADDENDA.items():
+    if k in CLAIMS:
+        t, n, tech = CLAIMS[k]
+        CLAIMS[k] = (t + extra, n + ' The MiniPy semantics and the two translators (desugar_threads.py: what is external is declared by name; '
+                     'translate_py.py) are validated by execution next to the real threads on every run, not proved.', tech)
 PENDING = 'check not built yet in this session (work in progress, see DESIGN.md section 9); will be claimed when its theorems and correspondence run'
 
 checks, na = [], []
